@@ -2,8 +2,10 @@ pub mod array_bfs;
 pub mod c01;
 pub mod c02;
 pub mod c03;
+pub mod c04;
 pub mod c05;
 pub mod c13;
+pub mod ops;
 pub mod recv;
 pub mod views;
 pub mod elem;
@@ -11,5 +13,5 @@ pub mod elem;
 use crate::engine::Prop;
 
 pub fn all() -> Vec<&'static dyn Prop> {
-    vec![&c01::C01, &c02::C02, &c03::C03, &c05::C05, &c13::C13]
+    vec![&c01::C01, &c02::C02, &c03::C03, &c04::C04, &c05::C05, &c13::C13]
 }
